@@ -681,9 +681,13 @@ def py_shapes(path):
 _POPEN = {"forChanges", "ifStatusAttr", "ifObjClosed", "forMulti", "forLinkList", "ifLinkNotClosed"}
 
 
-def _ptree(toks, ind=1):
-    """flat tokens of _update_internal_graph (open … [else_ …] close) -> Lean term of Prog.PStmt"""
+_IOPEN = {"forPrevJ", "forPrevL", "forIds", "forConnected"}
+
+
+def _ptree(toks, ind=1, opens=None, blk="blockP", what="_update_internal_graph"):
+    """flat tokens (open … [else_ …] close) -> Lean term of Prog.PStmt / Prog.IStmt"""
     pos = [0]
+    _POPEN = opens or globals()["_POPEN"]
 
     def block(depth):
         items = []
@@ -697,22 +701,22 @@ def _ptree(toks, ind=1):
                     pos[0] += 1
                     b = block(depth + 1)
                 if pos[0] >= len(toks) or toks[pos[0]] != "close":
-                    raise vlib.BrokenTie("_update_internal_graph: unbalanced skeleton %s" % toks)
+                    raise vlib.BrokenTie("%s: unbalanced skeleton %s" % (what, toks))
                 pos[0] += 1
                 if t == "ifObjClosed":
-                    items.append(".%s %s %s" % (t, a, b if b is not None else "(blockP [])"))
+                    items.append(".%s %s %s" % (t, a, b if b is not None else "(%s [])" % blk))
                 elif b is not None:
-                    raise vlib.BrokenTie("_update_internal_graph: else branch on %s" % t)
+                    raise vlib.BrokenTie("%s: else branch on %s" % (what, t))
                 else:
                     items.append(".%s %s" % (t, a))
             else:
                 items.append("." + t)
         pad = "  " * (depth + 1)
-        return "(blockP [\n" + ",\n".join(pad + x for x in items) + "])" if items else "(blockP [])"
+        return "(%s [\n" % blk + ",\n".join(pad + x for x in items) + "])" if items else "(%s [])" % blk
 
     out = block(ind)
     if pos[0] != len(toks):
-        raise vlib.BrokenTie("_update_internal_graph: unbalanced skeleton %s" % toks)
+        raise vlib.BrokenTie("%s: unbalanced skeleton %s" % (what, toks))
     return out[1:-1]
 
 
@@ -727,10 +731,11 @@ def write_shape(repo):
            "/-- its array parameters, in order -/\ndef cppParams : List Arr := %s\n\n"
            "/-- the arguments `_get_isolated_junctions_and_links` passes, in order -/\ndef callArgs : List PyArg := %s\n\n"
            "/-- registry generators iterated by `_initialize_internal_graph` and by the head of `run_sim` -/\ndef iter : Iter :=\n  %s\n\n"
-           "/-- `_update_internal_graph` -/\ndef updateProg : PStmt :=\n  %s\n\ndef isolatedToks : List PyTok := %s\n\n"
+           "/-- `_update_internal_graph` -/\ndef updateProg : PStmt :=\n  %s\n\n/-- `_get_isolated_junctions_and_links` -/\ndef isolatedProg : IStmt :=\n  %s\n\n"
            "def initToks : List PyTok := %s\n\ndef csrIndexToks : List PyTok := %s\n\ndef headToks : List PyTok := %s\n\n"
            "/-- the `while True:` body of `run_sim` -/\ndef loopToks : List LoopTok := %s\n\nend Wntr.Isolation.Gen\n"
-           % (body, lst(params), lst(py["callArgs"]), py["iter"], _ptree(py["updateToks"]), lst(py["isolatedToks"]), lst(py["initToks"]),
+           % (body, lst(params), lst(py["callArgs"]), py["iter"], _ptree(py["updateToks"]),
+              _ptree(py["isolatedToks"], opens=_IOPEN, blk="blockI", what="_get_isolated_junctions_and_links"), lst(py["initToks"]),
               lst(py["csrIndexToks"]), lst(py["headToks"]), lst(py["loopToks"])))
     vlib.write_if_changed(os.path.join(vlib.LEAN, "WntrModel/Gen/IsolationShape.lean"), txt)
 
